@@ -6,7 +6,7 @@
 
    Transcribed test by test, in the order of the [isinstance] tests of the source,
    including the defects (unary plus is the identity, one-argument max/min returns
-   its argument, ...).  The operator / cast tables are those of Gen/SafeCasts.v,
+   its argument, ...) and the size bound on folded integers (_MAX_CONST_BITS).  The operator / cast tables are those of Gen/SafeCasts.v,
    regenerated from the current source on every run.  No proofs in this file. *)
 From Coq Require Import ZArith QArith List Bool.
 From RV Require Import Base.Wire Base.Text Lang.PyAst Lang.PySem Gen.SafeCasts.
@@ -85,11 +85,32 @@ Definition lift {A} (r : res A) : cr A :=
   | Err _ => COutOfModel
   end.
 
+(* int.bit_length() *)
+Definition bit_length (z : Z) : Z := if z =? 0 then 0 else Z.log2 (Z.abs z) + 1.
+(* the size _apply_bin predicts for the result of an operator on two ints (bools are ints), before computing it:
+   Pow and LShift with a positive right operand, Mult; 0 for everything else *)
+Definition fold_bits (op : binop) (x y : Z) : Z :=
+  match op with
+  | Pow => if 0 <? y then bit_length x * y else 0
+  | LShift => if 0 <? y then bit_length x + y else 0
+  | Mult => bit_length x + bit_length y
+  | _ => 0
+  end.
+(* "if bits > _MAX_CONST_BITS: raise ValueError" - fold_max_bits is read from the current source (Gen/SafeCasts.v) *)
+Definition too_large (op : binop) (a b : pval) : bool :=
+  match is_intlike a, is_intlike b with
+  | Some x, Some y => fold_max_bits <? fold_bits op x y
+  | _, _ => false
+  end.
+
 (* _apply_bin *)
 Definition apply_bin (op : binop) (a b : pval) : cres :=
   match op, a, b with
   | Add, VStr s, VStr t => CVal (VStr (s ++ t))
-  | _, _, _ => if is_numv a && is_numv b then lift (py_bin op a b) else CFail KValue
+  | _, _, _ =>
+      if is_numv a && is_numv b then
+        if too_large op a b then CFail KValue else lift (py_bin op a b)
+      else CFail KValue
   end.
 
 Definition un_step (op : unop) (v : pval) : cres :=
@@ -236,7 +257,7 @@ Definition after {A} (p : prim) (m : fx A) : fx A := let (r, t) := m in (r, p ::
 Definition apply_bin_fx (op : binop) (a b : pval) : fx pval :=
   (apply_bin op a b,
    if (match op with Add => is_strv a && is_strv b | _ => false end) then [PConcat]
-   else if is_numv a && is_numv b then [PArith op] else []).
+   else if is_numv a && is_numv b && negb (too_large op a b) then [PArith op] else []).
 Definition un_step_fx (op : unop) (v : pval) : fx pval :=
   (un_step op v, match op with USub => [PNeg] | Not => [PTruth] | _ => [] end).
 Definition cmp_step_fx (op : cmpop) (l r : pval) : fx bool :=
@@ -480,8 +501,35 @@ Definition glyph_bitmap (c : cenv) (e : pexpr) : outcome (list Z) :=
   end.
 
 (* ---- size of a folded value; the tower 2 ** (2 ** n) ---- *)
-Definition bits (v : pval) : Z := match v with VInt z => Z.log2 (Z.abs z) + 1 | _ => 0 end.
+Definition bits (v : pval) : Z := match v with VInt z => Z.log2 (Z.abs z) + 1 | VBool _ => 1 | _ => 0 end.
 Definition tower (n : Z) : pexpr := EBin Pow (EInt 2) (EBin Pow (EInt 2) (EInt n)).
+
+(* the arithmetic fragment: literals, names, operators, conditions - no call (int(<float>) / int(<str>) / len produce
+   integers whose size the exact-rational floats and the strings of this model do not bound), no string, no list *)
+Fixpoint arith_only (e : pexpr) : bool :=
+  let fix all (l : list pexpr) : bool := match l with [] => true | x :: r => arith_only x && all r end in
+  match e with
+  | EInt _ | EBool _ | EName _ => true
+  | EBin _ a b => arith_only a && arith_only b
+  | EUn _ a => arith_only a
+  | EBoolOp _ vs => all vs
+  | ECompare l _ rs => arith_only l && all rs
+  | EIfExp c a b => arith_only c && arith_only a && arith_only b
+  | _ => false
+  end.
+(* the widest integer the expression can read: its literals and the bindings of its names *)
+Fixpoint leaf_bits (c : cenv) (e : pexpr) : Z :=
+  let fix mx (l : list pexpr) : Z := match l with [] => 0 | x :: r => Z.max (leaf_bits c x) (mx r) end in
+  match e with
+  | EInt z => bits (VInt z)
+  | EName x => match tlookup x c with Some (Known v) => bits v | _ => 0 end
+  | EBin _ a b => Z.max (leaf_bits c a) (leaf_bits c b)
+  | EUn _ a => leaf_bits c a
+  | EBoolOp _ vs => mx vs
+  | ECompare l _ rs => Z.max (leaf_bits c l) (mx rs)
+  | EIfExp x a b => Z.max (leaf_bits c x) (Z.max (leaf_bits c a) (leaf_bits c b))
+  | _ => 0
+  end.
 
 (* sources of the non-ValueError kinds *)
 Fixpoint mentions (test : pexpr -> bool) (e : pexpr) : bool :=
